@@ -82,3 +82,241 @@ Proof.
     + apply inv_top; try assumption. cbn. repeat split; auto. unfold fut_state in F. rewrite F. discriminate.
     + apply inv_top; try assumption. exact Logic.I.
 Qed.
+
+Theorem step_inv s a ch s' ch' site : Inv s -> step s a ch = Some (s', ch', site) -> Inv s'.
+Proof.
+  intros I. unfold step.
+  destruct (length (agents s) <=? a) eqn:El; [discriminate|]. apply Nat.leb_gt in El.
+  destruct (stack (agent_of s a)) as [|x below] eqn:Hst.
+  - destruct (negb (worker (agent_of s a)) || parked (agent_of s a)) eqn:Eb; [discriminate|].
+    apply orb_false_elim in Eb. destruct Eb as [Ew Ep]. apply negb_false_iff in Ew.
+    destruct (cq s ++ steal s) as [|t0 pool'] eqn:Epool.
+    + intros H. inversion H; subst. apply inv_flags; [exact I | exact El | rewrite Hst; reflexivity | cbn; rewrite Ew; reflexivity|].
+      intros _. split; [reflexivity|]. apply app_eq_nil in Epool. tauto.
+    + destruct (choice ch) as [c ch1] eqn:Ec. cbv zeta.
+      set (i := Nat.modulo c (length (t0 :: pool'))).
+      assert (Hi : i < length (cq s ++ steal s)) by (rewrite Epool; apply mod_lt_len; cbn; lia).
+      intros H. injection H as E1 _ _. rewrite <- E1.
+      destruct (take_at_spec s i Hi) as (c' & st' & E & H1 & H2 & H3). rewrite E.
+      change (match i with 0 => t0 | S m => nth m pool' 0 end) with (nth i (t0 :: pool') 0).
+      rewrite <- Epool. rewrite <- Hst.
+      apply inv_start; try assumption. apply nth_In. exact Hi.
+  - assert (Hx : In x (acts s)) by (apply in_acts; exists (agent_of s a); split; [apply agent_in; exact El | rewrite Hst; left; reflexivity]).
+    assert (Pf : parked (agent_of s a) = false).
+    { destruct (parked (agent_of s a)) eqn:E; [|reflexivity]. pose proof (i_parked s I _ (agent_in s a El) E) as C. rewrite Hst in C. discriminate. }
+    pose proof (i_noup_a s I x Hx) as Hn.
+    destruct (a_mode x) as [|gj|gj] eqn:Hm.
+    + destruct (a_ops x) as [|o r] eqn:Hops.
+      * intros H. inversion H; subst. apply inv_finish; assumption.
+      * destruct o as [|j k body|j|j].
+        -- intros H. inversion H; subst. apply inv_top; try assumption; try exact Logic.I; try (eapply noup_tail; exact Hn).
+        -- destruct (choice ch) as [c ch1]. intros H. inversion H; subst. apply inv_spawn; assumption.
+        -- destruct (assoc j (a_own x)) as [g0|] eqn:Ea.
+           ++ intros H. inversion H; subst. apply (inv_wait_join s a x r below g0 j); try assumption; try (eapply noup_tail; exact Hn); try (apply assoc_in; exact Ea).
+           ++ intros H. inversion H; subst. apply inv_top; try assumption; try exact Logic.I; try (eapply noup_tail; exact Hn).
+        -- exfalso. apply noup_cons in Hn. destruct Hn as [C _]. cbn in C. discriminate.
+    + destruct (set_done s gj).
+      * intros H. inversion H; subst. apply inv_top; try assumption. exact Logic.I.
+      * destruct (cq s) as [|t0 pool'] eqn:Ecq.
+        -- intros H. inversion H; subst. exact I.
+        -- destruct (choice ch) as [c ch1]. cbv zeta.
+           set (i := Nat.modulo c (length (t0 :: pool'))).
+           assert (Hi : i < length (cq s)) by (rewrite Ecq; apply mod_lt_len; cbn; lia).
+           intros H. injection H as E1 _ _. rewrite <- E1.
+           change (match i with 0 => t0 | S m => nth m pool' 0 end) with (nth i (t0 :: pool') 0).
+           change (match i with 0 => pool' | S m => t0 :: remove_nth pool' m end) with (remove_nth (t0 :: pool') i).
+           rewrite <- Ecq. rewrite <- Hst. apply inv_start; try assumption.
+           ++ intros u Hu. apply in_app_or in Hu. apply in_or_app. destruct Hu as [H|H]; [left; eapply remove_nth_in; exact H | right; exact H].
+           ++ intros u Hu Hne. apply in_app_or in Hu. apply in_or_app. destruct Hu as [H|H]; [left; apply remove_nth_keep with (d := 0); assumption | right; exact H].
+           ++ auto.
+           ++ apply in_or_app. left. apply nth_In. exact Hi.
+    + destruct (is_done (fut_state s gj)); [|discriminate].
+      intros H. inversion H; subst. apply inv_top; try assumption. exact Logic.I.
+Qed.
+
+(* ---------- the initial state ---------- *)
+Lemma in_repeat {A} (x y : A) n : In y (repeat x n) -> y = x.
+Proof. apply repeat_spec. Qed.
+
+Lemma inv_init p n : noup p = true -> Inv (init p n).
+Proof.
+  intros Hp. unfold init.
+  assert (Hacts : forall y, In y (acts (init p n)) -> y = ACT 0 p [] [] MRun 1).
+  { intros y Hy. apply in_acts in Hy. destruct Hy as (g & Hg & Hy). cbn [agents init] in Hg. destruct Hg as [<-|Hg].
+    - cbn in Hy. destruct Hy as [<-|[]]. reflexivity.
+    - apply in_repeat in Hg. subst. contradiction. }
+  constructor.
+  - intros t Ht. cbn in Ht. contradiction.
+  - intros g Hg. cbn [agents] in Hg. destruct Hg as [<-|Hg]; [cbn; tauto | apply in_repeat in Hg; subst; exact Logic.I].
+  - intros y Hy. rewrite (Hacts y Hy). cbn. lia.
+  - intros j Hj. cbn in Hj. destruct Hj as [<-|[]]. cbn. lia.
+  - intros y m gj Hy Hm. rewrite (Hacts y Hy) in Hm. contradiction.
+  - intros y gj Hy Hm. rewrite (Hacts y Hy) in Hm. cbn in Hm. destruct Hm; discriminate.
+  - intros y Hy. rewrite (Hacts y Hy). exact Hp.
+  - intros t Ht. cbn in Ht. destruct Ht as [<-|[]]. exact Hp.
+  - intros t Ht Hs. cbn [tasks length] in Ht. assert (t = 0) by lia. subst.
+    exists (ACT 0 p [] [] MRun 1). split; [apply in_acts; eexists; split; [left; reflexivity | left; reflexivity]|]. split; [reflexivity|]. cbn. lia.
+  - intros t Ht Hs. cbn [tasks length] in Ht. assert (t = 0) by lia. subst. cbn in Hs. discriminate.
+  - intros gj Hg Hk. cbn [joins length] in Hg. assert (gj = 0) by lia. subst. cbn in Hk. discriminate.
+  - intros y gj Hy Hm. rewrite (Hacts y Hy) in Hm. discriminate.
+  - intros g Hg Hpk. cbn [agents] in Hg. destruct Hg as [<-|Hg]; [discriminate | apply in_repeat in Hg; subst; reflexivity].
+  - intros H. cbn in H. contradiction.
+  - cbn. split; [lia | reflexivity].
+  - intros t Ht. cbn [tasks length] in Ht. assert (t = 0) by lia. subst. cbn. lia.
+Qed.
+
+Theorem reach_Inv p n s : noup p = true -> reach step (init p n) s -> Inv s.
+Proof.
+  intros Hp R. apply (reach_inv step Inv (init p n)); [apply inv_init; exact Hp | | exact R].
+  intros s0 t ch s1 ch1 site I E. eapply step_inv; eauto.
+Qed.
+
+(* ---------- no reachable state is stuck (safety) ---------- *)
+Lemma exists_max {A} (f : A -> nat) (l : list A) : l <> [] -> exists x, In x l /\ forall y, In y l -> f y <= f x.
+Proof.
+  induction l as [|z r IH]; [congruence|]. intros _. destruct r as [|z' r'].
+  - exists z. split; [left; reflexivity|]. intros y [<-|[]]. lia.
+  - destruct (IH ltac:(discriminate)) as (m & Hm & Hall). destruct (Nat.le_ge_cases (f m) (f z)) as [Hle|Hle].
+    + exists z. split; [left; reflexivity|]. intros y [<-|Hy]; [lia|]. specialize (Hall y Hy). lia.
+    + exists m. split; [right; exact Hm|]. intros y [<-|Hy]; [lia | apply Hall; exact Hy].
+Qed.
+
+Lemma max_is_top s L : Inv s -> In L (acts s) -> (forall y, In y (acts s) -> a_start y <= a_start L) ->
+  exists a below, a < length (agents s) /\ stack (agent_of s a) = L :: below.
+Proof.
+  intros I HL Hmax. apply in_acts in HL. destruct HL as (g & Hg & HLg).
+  destruct (in_nth_ex _ _ dagent Hg) as (a & Ha & Ea). exists a.
+  pose proof (i_sorted s I g Hg) as S. destruct (stack g) as [|h r] eqn:Est; [contradiction|].
+  exists r. split; [exact Ha|]. unfold agent_of. rewrite Ea, Est. f_equal.
+  destruct HLg as [->|Hin]; [reflexivity|]. exfalso. cbn in S. destruct S as [S _].
+  assert (Hh : In h (acts s)) by (apply in_acts; exists g; split; [exact Hg | rewrite Est; left; reflexivity]).
+  specialize (Hmax h Hh). specialize (S (a_start L) (in_map a_start r L Hin)). lia.
+Qed.
+
+Lemma not_set_done s gj : set_done s gj = false -> exists u, u < length (tasks s) /\ t_join (task_of s u) = gj /\ t_st (task_of s u) <> TDone.
+Proof.
+  unfold set_done. intros H. assert (E : exists tr, In tr (tasks s) /\ (negb (Nat.eqb (t_join tr) gj) || is_done (t_st tr)) = false).
+  { revert H. induction (tasks s) as [|z r IH]; cbn; [discriminate|]. intros H. apply andb_false_iff in H. destruct H as [H|H].
+    - exists z. auto.
+    - destruct (IH H) as (tr & Htr & E). exists tr. auto. }
+  destruct E as (tr & Htr & E). apply orb_false_elim in E. destruct E as [E1 E2]. apply negb_false_iff in E1. apply Nat.eqb_eq in E1.
+  destruct (in_nth_ex _ _ dtask Htr) as (u & Hu & Eu). exists u. unfold task_of. rewrite Eu. repeat split; auto.
+  intros C. rewrite C in E2. discriminate.
+Qed.
+
+Lemma idle_worker_progress s w : In w (agents s) -> worker w = true -> parked w = false -> stack w = [] -> exists b, status_of s b = Progress.
+Proof.
+  intros Hw Ww Pw Sw. destruct (in_nth_ex _ _ dagent Hw) as (b & Hb & Eb). exists b. unfold status_of.
+  assert (E : (length (agents s) <=? b) = false) by (apply Nat.leb_gt; exact Hb). rewrite E.
+  unfold agent_of. rewrite Eb, Sw, Ww, Pw. reflexivity.
+Qed.
+
+Theorem no_stuck s : Inv s -> finished s = false -> exists a, status_of s a = Progress.
+Proof.
+  intros I Hf. unfold finished in Hf. destruct (stack (agent_of s 0)) as [|x0 r0] eqn:E0; [discriminate|].
+  destruct (i_root s I) as [H0 _].
+  assert (Hne : acts s <> []).
+  { intros C. assert (In x0 (acts s)) by (apply in_acts; exists (agent_of s 0); split; [apply agent_in; exact H0 | rewrite E0; left; reflexivity]).
+    rewrite C in H. contradiction. }
+  destruct (exists_max a_start (acts s) Hne) as (L & HL & Hmax).
+  destruct (max_is_top s L I HL Hmax) as (a & below & Ha & Hst).
+  assert (Contra : forall y, In y (acts s) -> a_start L < a_start y -> False) by (intros y Hy Hlt; specialize (Hmax y Hy); lia).
+  assert (El : (length (agents s) <=? a) = false) by (apply Nat.leb_gt; exact Ha).
+  destruct (a_mode L) as [|gj|gj] eqn:Hm.
+  - exists a. unfold status_of. rewrite El, Hst, Hm. reflexivity.
+  - destruct (i_mode s I L gj HL (or_introl Hm)) as [R O].
+    destruct (set_done s gj) eqn:Ed; [exists a; unfold status_of; rewrite El, Hst, Hm, Ed; reflexivity|].
+    destruct (cq s) as [|t0 q] eqn:Ecq; [|exists a; unfold status_of; rewrite El, Hst, Hm, Ed, Ecq; reflexivity].
+    destruct (not_set_done s gj Ed) as (u & Hu & Ej & Hnd).
+    assert (Eo : ostart_of s u = a_start L) by (unfold ostart_of; rewrite Ej; exact O).
+    destruct (t_st (task_of s u)) eqn:Est; [| |contradiction].
+    + pose proof (i_queued s I u Hu Est) as Hq. rewrite Ecq in Hq. cbn [app] in Hq.
+      assert (Hsn : steal s <> []) by (intros C; rewrite C in Hq; contradiction).
+      destruct (i_steal s I Hsn) as (w & Hw & Ww & Pw & Hall).
+      destruct (stack w) as [|y ry] eqn:Esw; [apply (idle_worker_progress s w Hw Ww Pw Esw)|].
+      exfalso. apply (Contra y); [apply in_acts; exists w; split; [exact Hw | rewrite Esw; left; reflexivity]|].
+      rewrite <- Eo. apply (Hall u y Hq). left. reflexivity.
+    + destruct (i_active s I u Hu Est) as (y & Hy & _ & Ly). exfalso. apply (Contra y Hy). rewrite <- Eo. exact Ly.
+  - destruct (i_mode s I L gj HL (or_intror Hm)) as [R O].
+    destruct (is_done (fut_state s gj)) eqn:Ed; [exists a; unfold status_of; rewrite El, Hst, Hm, Ed; reflexivity|].
+    destruct (i_waitfut s I L gj HL Hm) as (_ & K & Q). destruct (i_fut s I gj R K) as [F1 F2].
+    set (u := j_ftask (join_of s gj)) in *.
+    assert (Eo : ostart_of s u = a_start L) by (unfold ostart_of; rewrite F2; exact O).
+    unfold fut_state in Ed. fold u in Ed. destruct (t_st (task_of s u)) eqn:Est; [contradiction | | discriminate].
+    destruct (i_active s I u F1 Est) as (y & Hy & _ & Ly). exfalso. apply (Contra y Hy). rewrite <- Eo. exact Ly.
+Qed.
+
+(* ---------- fair termination ---------- *)
+Lemma run_sched_nil s : run_sched s [] = s.
+Proof. cbn. destruct (finished s); reflexivity. Qed.
+
+Lemma run_sched_mono : forall sch s, Inv s -> Inv (run_sched s sch) /\ mu (run_sched s sch) <= mu s.
+Proof.
+  induction sch as [|[a ch] r IH]; intros s I; [rewrite run_sched_nil; auto|].
+  cbn [run_sched]. destruct (finished s); [auto|].
+  destruct (step s a ch) as [[[s1 ch1] site]|] eqn:E; [|apply IH; exact I].
+  pose proof (step_inv s a ch s1 ch1 site I E) as I1. destruct (IH s1 I1) as [J M].
+  split; [exact J|]. destruct (step_mu s a ch s1 ch1 site (i_range s I) E) as [->|Hlt]; lia.
+Qed.
+
+Lemma round_progress : forall rd s, Inv s -> finished s = false ->
+  (exists a ch, In (a, ch) rd /\ status_of s a = Progress) ->
+  finished (run_sched s rd) = true \/ mu (run_sched s rd) < mu s.
+Proof.
+  induction rd as [|[b ch] r IH]; intros s I Hf (a & cha & Hin & Hp); [contradiction|].
+  cbn [run_sched]. rewrite Hf.
+  destruct (step s b ch) as [[[s1 ch1] site]|] eqn:E.
+  - pose proof (step_inv s b ch s1 ch1 site I E) as I1. destruct (run_sched_mono r s1 I1) as [_ M].
+    destruct (step_mu s b ch s1 ch1 site (i_range s I) E) as [->|Hlt]; [|right; lia].
+    (* a spin: the state is unchanged, the progressing agent is still to come (b itself cannot be it) *)
+    destruct Hin as [Heq|Hin].
+    + inversion Heq; subst. destruct (progress_step s a cha (i_range s I) Hp) as (s2 & c2 & st2 & E2 & Hlt). rewrite E2 in E. inversion E; subst. lia.
+    + apply IH; [exact I | exact Hf | exists a, cha; auto].
+  - destruct Hin as [Heq|Hin].
+    + inversion Heq; subst. destruct (progress_step s a cha (i_range s I) Hp) as (s2 & c2 & st2 & E2 & _). rewrite E2 in E. discriminate.
+    + apply IH; [exact I | exact Hf | exists a, cha; auto].
+Qed.
+
+Lemma agents_len_inv : forall s a ch s' ch' site, step s a ch = Some (s', ch', site) -> True.
+Proof. trivial. Qed.
+
+Lemma status_progress_lt s a : status_of s a = Progress -> a < length (agents s).
+Proof. unfold status_of. destruct (length (agents s) <=? a) eqn:E; [discriminate|]. intros _. apply Nat.leb_gt in E. exact E. Qed.
+
+Lemma run_sched_app : forall l1 l2 s, run_sched s (l1 ++ l2) = run_sched (run_sched s l1) l2.
+Proof.
+  induction l1 as [|[a ch] r IH]; intros l2 s.
+  - rewrite run_sched_nil. reflexivity.
+  - cbn [app run_sched]. destruct (finished s) eqn:F.
+    + destruct l2 as [|[b c2] r2]; cbn [run_sched]; rewrite F; reflexivity.
+    + destruct (step s a ch) as [[[s1 ch1] site]|]; apply IH.
+Qed.
+
+Lemma run_sched_finished s sch : finished s = true -> run_sched s sch = s.
+Proof. intros F. destruct sch as [|[a ch] r]; cbn [run_sched]; rewrite F; reflexivity. Qed.
+
+(* every round in which each agent of the CURRENT state gets a turn makes progress or completes the program *)
+Theorem fair_rounds : forall rounds s, Inv s ->
+  (forall rd s1, In rd rounds -> fair_round (length (agents s1)) rd \/ True) ->
+  (forall rd, In rd rounds -> forall a, a < length (agents s) -> exists ch, In (a, ch) rd) ->
+  (forall s1 a ch s2 c2 st, step s1 a ch = Some (s2, c2, st) -> length (agents s2) = length (agents s1)) ->
+  finished (run_sched s (concat rounds)) = true \/ mu (run_sched s (concat rounds)) + length rounds <= mu s.
+Proof.
+  induction rounds as [|rd rs IH]; intros s I _ Hfair Hlen; [right; cbn [concat]; rewrite run_sched_nil; cbn; lia|].
+  cbn [concat]. rewrite run_sched_app. destruct (finished s) eqn:F.
+  - left. rewrite (run_sched_finished s rd F). rewrite (run_sched_finished s _ F). exact F.
+  - destruct (no_stuck s I F) as (a & Hp).
+    destruct (Hfair rd (or_introl eq_refl) a (status_progress_lt s a Hp)) as (ch & Hin).
+    destruct (run_sched_mono rd s I) as [I1 M1].
+    assert (Hl1 : length (agents (run_sched s rd)) = length (agents s)).
+    { clear - Hlen. revert s. induction rd as [|[b c] r IHr]; intros s; [rewrite run_sched_nil; reflexivity|].
+      cbn [run_sched]. destruct (finished s); [reflexivity|]. destruct (step s b c) as [[[s1 c1] st]|] eqn:E; [|apply IHr].
+      rewrite IHr. eapply Hlen. exact E. }
+    destruct (round_progress rd s I F (ex_intro _ a (ex_intro _ ch (conj Hin Hp)))) as [Fin|Hlt].
+    + left. rewrite (run_sched_finished _ _ Fin). exact Fin.
+    + destruct (IH (run_sched s rd) I1 (fun _ _ _ => or_intror Logic.I)) as [Fin|Hle].
+      * intros rd' Hrd' b Hb. rewrite Hl1 in Hb. apply (Hfair rd' (or_intror Hrd') b Hb).
+      * exact Hlen.
+      * left. exact Fin.
+      * right. cbn [length]. lia.
+Qed.
